@@ -339,6 +339,9 @@ inline std::vector<double> floats64() {
           9223372036854775808.0, 18446744073709551616.0, -9223372036854775808.0, 9.9999999995e10, 0.9999999995,
           99999.9999999, 2.5e-5, 1e15, 1.0000000000000002, 4294967295.0, -129.0, 65536.0, 0.0078125, 1.00000011920928955078125,
           -0.333251953125, 33554436.0,
+          // 8-digit literals on both sides of 2^23 and 2^24 (the parser's float / double decision), 9 and 10 digits, large exponents
+          0.8388607, 0.8388608, 0.8388609, 1.2345678, 1.6777215, 1.6777216, 1.6777217, 12.345678, -1500000.7, 8.388609e37, 1.2345678e-37,
+          1.6777215e30, 123456789.5, 1.234567891, 1e100, 1.2345678912e64, 9.87654321e128, 1e299, 1e-299, 5e-324 * 3,
           std::numeric_limits<double>::quiet_NaN(), inf, -inf};
 }
 
@@ -528,6 +531,47 @@ inline void forEachDoc(const DocOptions& o, const DocSink& f, std::vector<std::s
   G.keys = reducedKeys();
   G.dupKeys = false;
   G.upTo(o.nodes, [&](const MValue& t) { f(t, 0); });
+  // S5b many EMPTY containers in one document (a level taken by a container that is closed must be given back)
+  {
+    auto wide = [&](size_t n, int style, bool asObject) {
+      MValue m = asObject ? MValue::object() : MValue::array();
+      for (size_t i = 0; i < n; i++) {
+        MValue child;
+        if (style == 0) child = MValue::array();
+        else if (style == 1) child = MValue::object();
+        else if (i % 2) { child = MValue::array(); child.a.push_back(MValue::integer(i128(i))); }
+        else child = (i % 4) ? MValue::object() : MValue::array();
+        if (asObject) m.o.emplace_back("k" + std::to_string(i), child);
+        else m.a.push_back(child);
+      }
+      return m;
+    };
+    for (size_t n : std::vector<size_t>{3, 9, 10, 11, 12, 16, 40, 300})
+      for (int style = 0; style < 3; style++)
+        for (int asObject = 0; asObject < 2; asObject++) {
+          MValue w = wide(n, style, asObject != 0);
+          f(w, 0);
+          MValue outer = MValue::array();
+          outer.a.push_back(w);
+          outer.a.push_back(MValue::object());
+          f(outer, 0);
+        }
+    for (size_t n : std::vector<size_t>{6, 40}) {
+      MValue list = MValue::array();
+      for (size_t i = 0; i < n; i++) {
+        MValue rec = MValue::object();
+        rec.o.emplace_back("id", MValue::integer(i128(i)));
+        rec.o.emplace_back("tags", MValue::array());
+        rec.o.emplace_back("meta", MValue::object());
+        list.a.push_back(rec);
+      }
+      f(list, 0);
+    }
+    MValue nine = MValue::integer(1);
+    MValue tail = chain(9, 2, &nine);
+    for (int i = 0; i < 10; i++) tail.a.push_back(i % 2 ? MValue::array() : MValue::object());
+    f(tail, 0);
+  }
   // S6 nesting chains
   std::vector<int> depths;
   for (int d = 1; d <= 12; d++) depths.push_back(d);
@@ -550,7 +594,7 @@ inline void forEachDoc(const DocOptions& o, const DocSink& f, std::vector<std::s
                       " keys incl. every byte value; all trees with <= " + std::to_string(o.nodes) + " nodes over " +
                       std::to_string(G.leavesTop.size()) + " leaves (" + std::to_string(G.leavesDeep.size()) + " at depth >= " +
                       std::to_string(G.deepFrom) + ") and " + std::to_string(G.keys.size()) +
-                      " keys; array/object/mixed nesting chains of depth 1..12" + dl);
+                      " keys; arrays and objects of 3..300 empty (or alternating) containers, record lists with empty members; array/object/mixed nesting chains of depth 1..12" + dl);
   }
 }
 
